@@ -235,3 +235,26 @@ def mac_shape(prog, run, fi):
                    witness=";".join(bad), file=f, node=st)
     if not checked:
         run.ob("R-mac-shape", fi.qual, "entry indices", None, "normalisation loop `M[i, j] = ...` over both sets not found", file=f)
+
+
+G = "functions.gen"
+MUTANTS = [
+    ("C18-m01 arccos argument not clipped", G, "MPD", "np.arccos(np.clip(ratio, 0.0, 1.0))", "np.arccos(ratio)"),
+    ("C18-m02 plain division by the component magnitudes", G, "MPD", "np.divide(np.abs(num), den, out=np.ones_like(den), where=den > 0)", "np.abs(num) / den"),
+    ("C18-m03 MAC normalised by the first set only", G, "MAC", "np.conj(phi_X[:, i]) @ phi_X[:, i] * np.conj(phi_A[:, j]) @ phi_A[:, j]", "np.conj(phi_X[:, i]) @ phi_X[:, i]"),
+    ("C18-m04 MAC rows and columns swapped", G, "MAC", "np.conj(phi_X).T @ phi_A", "np.conj(phi_A).T @ phi_X"),
+    ("C18-m06 MPC not squared", G, "MPC", "(lambd[0] - lambd[1]) ** 2 / (lambd[0] + lambd[1]) ** 2", "(lambd[0] - lambd[1]) ** 2 / (lambd[0] + lambd[1])"),
+    ("C18-m07 MSF inverted", G, "MSF", "np.dot(phi_2[:, i].T, phi_1[:, i]) / np.dot(phi_1[:, i].T, phi_1[:, i])", "np.dot(phi_1[:, i].T, phi_1[:, i]) / np.dot(phi_2[:, i].T, phi_1[:, i])"),
+    ("C18-m08 MCF with a scale-dependent term", G, "MCF", "(S_xx + S_yy) ** 2", "(S_xx + S_yy)"),
+    ("C18-m09 MPD weights not normalised", G, "MPD", "/ np.sum(w)", "", ),
+    ("C18-m10 MPD mixes two singular vectors", G, "MPD", "V = VT.T", "V = VT"),
+    ("C18-m11 MPD from the left singular vectors", G, "MPD", "U, s, VT = np.linalg.svd(np.c_[phi.real, phi.imag])", "VT, s, U = np.linalg.svd(np.c_[phi.real, phi.imag])"),
+]
+MUTANTS = [m for m in MUTANTS if m[4] != ""]
+MUTANTS.append(("C18-m09 MPD weights not normalised", G, "MPD", "MPD = np.sum(w * np.arccos(np.clip(ratio, 0.0, 1.0))) / np.sum(w)", "MPD = np.sum(w * np.arccos(np.clip(ratio, 0.0, 1.0)))"))
+REWRITES = [
+    ("rename:C18-r01", G, "MPD", "ratio", "cosang"),
+    ("C18-r02 minimum instead of clip", G, "MPD", "np.clip(ratio, 0.0, 1.0)", "np.minimum(ratio, 1.0)"),
+    ("C18-r03 where-guarded quotient", G, "MPD", "np.divide(np.abs(num), den, out=np.ones_like(den), where=den > 0)", "np.where(den > 0, np.abs(num) / np.where(den > 0, den, 1.0), 1.0)"),
+    ("C18-r04 transposed factor used directly", G, "MPD", "num = phi.real * V[1, 1] - phi.imag * V[0, 1]", "num = phi.real * VT[1, 1] - phi.imag * VT[1, 0]"),
+]
